@@ -106,6 +106,9 @@ func init() {
 		"(*sync.WaitGroup).Done":   hGhostCount("wgDone"),
 		"(*sync.WaitGroup).Wait":   hWgWait,
 		"(*crypto/tls.Conn).Handshake":        hGhostCountErr("tlsHandshakes"),
+		"(*crypto/tls.Conn).SetDeadline":      hSetDeadline,
+		"(*crypto/tls.Conn).SetReadDeadline":  hSetDeadline,
+		"(*crypto/tls.Conn).SetWriteDeadline": hSetDeadline,
 		"(*crypto/tls.Conn).HandshakeContext": hGhostCountErr("tlsHandshakes"),
 		"(*sync.WaitGroup).Add":    hGhostCount("wgAdd"),
 		"(*sync.Mutex).Lock":       hMutex(1),
@@ -416,6 +419,28 @@ func hGhostCount(name string) stdHandler {
 		}
 		k(st, Val{T: types.NewTuple()}, false)
 	}
+}
+
+// hSetDeadline: Set[Read|Write]Deadline(t) on a connection arms an absolute deadline unless t is the zero time;
+// the declared ghost variable deadlineArmed (bool) records whether the last call armed or cleared one.
+func hSetDeadline(x *Exec, fr *Frame, st *State, site ssa.Instruction, callee *ssa.Function, args []Val, k Kont) {
+	x.assumeNote("assumed contract " + callee.String() + ": arms an absolute deadline on the connection unless the argument is the zero time (ghost deadlineArmed); any error")
+	if g, ok := st.ghost["deadlineArmed"]; ok && len(args) >= 2 {
+		t := args[len(args)-1]
+		var nz []*Term
+		for _, c := range t.C {
+			switch {
+			case c.Sort == IntSort:
+				nz = append(nz, Not(Eq(c, IntConst(0))))
+			case c.Sort.Kind == KBV:
+				nz = append(nz, Not(Eq(c, BVConst(0, c.Sort.Width))))
+			}
+		}
+		st.ghost["deadlineArmed"] = Val{T: g.T, C: []*Term{Or(nz...)}}
+	}
+	res := freshVal(resultType(callee.Signature), "err")
+	x.assumeWF(st, res)
+	k(st, res, false)
 }
 
 // hGhostCountErr: like hGhostCount for a call that returns an (unconstrained) error.
